@@ -31,15 +31,104 @@ def _null_pair(v, e="expected", a="actual"):
     return v.get(e), v.get(a)
 
 
+def macro_layer(ctx, run):
+    """R5: fold every witness function of witness/C03_macros.cpp against recording assert stubs"""
+    import os
+    from cpv.ceval import Evaluator, Unknown
+    wpath = os.path.join(os.path.dirname(os.path.dirname(os.path.abspath(__file__))), "witness", "C03_macros.cpp")
+    wp = ctx.witness(wpath)
+    E, A, T = 0x111, 0x222, 0x33
+    # macro -> (assert method, expected leading arguments as a function of (e, a, t))
+    TABLE = {
+        "STRCMP_EQUAL": ("assertCstrEqual", lambda e, a, t: (e, a)), "STRCMP_EQUAL_TEXT": ("assertCstrEqual", lambda e, a, t: (e, a)),
+        "STRNCMP_EQUAL": ("assertCstrNEqual", lambda e, a, t: (e, a, t)), "STRCMP_NOCASE_EQUAL": ("assertCstrNoCaseEqual", lambda e, a, t: (e, a)),
+        "STRCMP_CONTAINS": ("assertCstrContains", lambda e, a, t: (e, a)), "STRCMP_NOCASE_CONTAINS": ("assertCstrNoCaseContains", lambda e, a, t: (e, a)),
+        "LONGS_EQUAL": ("assertLongsEqual", lambda e, a, t: (e, a)), "LONGS_EQUAL_TEXT": ("assertLongsEqual", lambda e, a, t: (e, a)),
+        "UNSIGNED_LONGS_EQUAL": ("assertUnsignedLongsEqual", lambda e, a, t: (e, a)), "LONGLONGS_EQUAL": ("assertLongLongsEqual", lambda e, a, t: (e, a)),
+        "UNSIGNED_LONGLONGS_EQUAL": ("assertUnsignedLongLongsEqual", lambda e, a, t: (e, a)), "BYTES_EQUAL": ("assertLongsEqual", lambda e, a, t: (e & 0xff, a & 0xff)),
+        "SIGNED_BYTES_EQUAL": ("assertSignedBytesEqual", lambda e, a, t: (e, a)), "POINTERS_EQUAL": ("assertPointersEqual", lambda e, a, t: (e, a)),
+        "FUNCTIONPOINTERS_EQUAL": ("assertFunctionPointersEqual", lambda e, a, t: (e, a)), "DOUBLES_EQUAL": ("assertDoublesEqual", lambda e, a, t: (float(e), float(a), float(t))),
+        "MEMCMP_EQUAL": ("assertBinaryEqual", lambda e, a, t: (e, a, t)), "BITS_EQUAL": ("assertBitsEqual", lambda e, a, t: (e, a, t, 4)),
+    }
+
+    def fold(f, env):
+        log = []
+        hooks = {"UtestShell::getCurrent": lambda: 1, "StringFrom": lambda v, *r: ("str", str(v)) if isinstance(v, (int, float)) else None,
+                 "SimpleString::asCharString": lambda v: v if isinstance(v, tuple) else None}
+        for m in set(t[0] for t in TABLE.values()) | {"assertTrue", "assertEquals", "assertCompare", "print"}:
+            hooks["UtestShell::" + m] = (lambda *a_, m=m: (log.append((m, a_[1:])), 0)[1])
+        ev = Evaluator(wp, f, env=env, calls=hooks)
+        ev.pass_object = True
+        ev.run_blocks(f.entry, max_steps=400)
+        return [x for x in log if x[0] != "print"]
+    nf = 0
+    for f in sorted(wp.functions.values(), key=lambda x: x.line):
+        if not f.qn.startswith("w_"):
+            continue
+        nf += 1
+        macro = f.qn[2:]
+        site = "include/CppUTest/UtestMacros.h:%s" % macro
+        pn = [q["name"] for q in f.params]
+        why = ""
+        try:
+            if macro in TABLE:
+                meth, want = TABLE[macro]
+                vals = {"e": E, "a": A, "t": T}
+                if macro == "SIGNED_BYTES_EQUAL":
+                    vals = {"e": 0x11, "a": 0x22, "t": T}
+                log = fold(f, {k: vals[k] for k in pn})
+                w = want(vals["e"], vals["a"], vals["t"])
+                if len(log) != 1 or log[0][0] != meth or tuple(log[0][1][:len(w)]) != tuple(w):
+                    why = "%s(e, a%s) expands to %s; expected one %s(%s, ...)" % (macro, ", t" if "t" in pn else "", [(m, a_[:len(w)]) for m, a_ in log], meth, ", ".join(map(str, w)))
+            elif macro.startswith("CHECK_FALSE") or macro in ("CHECK", "CHECK_TEXT", "CHECK_TRUE", "CHECK_TRUE_TEXT"):
+                neg = macro.startswith("CHECK_FALSE")
+                for c in (0, 1):
+                    log = fold(f, {"c": c})
+                    w = (0 if c else 1) if neg else c
+                    if len(log) != 1 or log[0][0] != "assertTrue" or (1 if log[0][1][0] else 0) != w:
+                        why = why or "%s(%d) expands to %s; expected assertTrue(%d, ...)" % (macro, c, [(m, a_[:1]) for m, a_ in log], w)
+            elif macro in ("CHECK_EQUAL", "CHECK_EQUAL_TEXT", "ENUMS_EQUAL_INT", "CHECK_EQUAL_ZERO"):
+                for e_, a_ in ((5, 5), (5, 6), (0, 0), (0, 7)):
+                    if macro == "CHECK_EQUAL_ZERO":
+                        if e_ != 0:
+                            continue
+                        log = fold(f, {"a": a_})
+                    else:
+                        log = fold(f, {"e": e_, "a": a_})
+                    if e_ == a_:
+                        okc = len(log) == 1 and log[0][0] == "assertLongsEqual" and log[0][1][0] == log[0][1][1]
+                    else:
+                        okc = len(log) == 1 and log[0][0] == "assertEquals" and log[0][1][0] == 1 and log[0][1][1:3] == (("str", str(e_)), ("str", str(a_)))
+                    if not okc:
+                        why = why or "%s(%d, %d) expands to %s; expected %s" % (macro, e_, a_, [(m, a2[:3]) for m, a2 in log], "a passing counted check" if e_ == a_ else "assertEquals(true, \"%d\", \"%d\", ...)" % (e_, a_))
+            elif macro == "CHECK_COMPARE":
+                for e_, a_ in ((1, 2), (2, 2), (3, 2)):
+                    log = fold(f, {"e": e_, "a": a_})
+                    fails = [x for x in log if x[0] == "assertCompare" and not x[1][0]]
+                    if (len(fails) == 1) != (not e_ < a_) or len(log) != len(fails):
+                        why = why or "CHECK_COMPARE(%d, <, %d) expands to %s" % (e_, a_, [(m, a2[:1]) for m, a2 in log])
+            else:
+                run.broke("C03.R5: witness function %s has no expectation in the rule table" % f.qn)
+                continue
+        except Unknown as u:
+            run.broke("C03.R5: the expansion of %s cannot be folded: %s" % (macro, u))
+            continue
+        run.ob("R5", "macro %s" % macro, site, not why, witness=why or "ok", what=why)
+    if nf < 25:
+        run.broke("C03.R5: only %d witness functions were extracted" % nf)
+
+
 def check(ctx, run):
     prog = ctx.program()
     run.assume("IEEE-754 binary64 arithmetic for double (Python floats fold with the same semantics); isnan/isinf/fabs have their C meaning")
     run.not_decided.append("value semantics of StrCmp/StrNCmp/StrStr/MemCmp/ToLower/equalsNoCase/contains over all byte strings (loops over unbounded data; C13 decides their bounds and NUL-termination, not their textbook meaning)")
-    run.not_decided.append("the macro layer (CHECK_EQUAL etc. expansions in user translation units) beyond the C entry points: decided in the thorough tier by the witness unit only for the macros it instantiates")
+    run.not_decided.append("macro expansions with operand types other than those instantiated in the witness unit (templates over StringFrom / operator!= for user types)")
     run.rule("R1", "assert family: countCheck exactly once on every path and before any failure; fail <=> oracle over the function's condition atoms; comparisons are on the parameters themselves through value-preserving conversions; string/memory compare only reached with both operands non-null; (expected, actual) reach the failure in that order", floor=60, exhaustive=True)
     run.rule("R2", "doubles_equal folded over the floating-point class partition {NaN, -Inf, +Inf, finite lattice} x thresholds {NaN, 0, subnormal, small, large, Inf} equals: NaN => false; same infinity => true; opposite infinities => false; finite => |d1-d2| <= t", floor=300, exhaustive=True)
     run.rule("R3", "C entry points: each CHECK_*_C_LOCATION forwards to the assert of its type with value-preserving widening only, operands in (expected, actual) order, and the longjmp terminator", floor=18)
 
+    run.rule("R5", "macro layer (witness unit witness/C03_macros.cpp parsed against the current headers, one function per public check macro, each folded): the expansion calls the assert entry point of its kind exactly once with (expected, actual[, third operand]) in that order, CHECK_FALSE negates, BYTES_EQUAL masks both sides, CHECK_EQUAL/ENUMS_EQUAL report iff the operands differ and count a check otherwise", floor=25)
+    macro_layer(ctx, run)
     shell = "UtestShell"
     run.rule("R4", "PARTITION: the character classifiers the case-insensitive checks rely on (isUpper, ToLower) folded for all 256 char values", floor=2, exhaustive=True)
     from .shared import char_classifiers
